@@ -75,12 +75,26 @@ def gen_case(rng, big=False, force=None):
         case['triggers'].append([rng.randrange(early), rng.choice(EVENTS_HSM if case['hsm'] else EVENTS_FLAT)])
         if case['queued'] == 0 and rng.random() < 0.12:
             case['protected'].append(tag)
+    # callback flavours of the recorders with index 1 / 2 (coroutine function | plain -> Task | Future | __await__)
+    case['kinds'] = {'1': rng.choice([0, 0, 1, 2, 3]), '2': rng.choice([0, 0, 1, 2, 3])}
     next_tag = [n]
+    disp = None
+    if early >= 2 and rng.random() < 0.3:
+        # one of the top-level entries is machine.dispatch(event): per-model root tasks gathered by the library
+        disp = rng.randrange(n)
+        case['triggers'][disp] = [-1, rng.choice(EVENTS_HSM if case['hsm'] else EVENTS_FLAT)]
+        case['protected'] = [p for p in case['protected'] if p != disp]
     for tag in range(n):
-        gen_event_script(rng, case, tag, 0, next_tag)
+        if tag == disp:
+            for mi in range(case['n_models']):
+                gen_event_script(rng, case, asyncctl.DISPATCH_BASE + 10 * tag + mi, 0, next_tag)
+        else:
+            gen_event_script(rng, case, tag, 0, next_tag)
     case['delays'] = []
     if rng.random() < 0.3:
         case['delays'] = [0] + [rng.choice([0, 0, 1, 2, 3, 5, 8, 13, 21, 34]) for _ in range(n - 1)]
+    if disp == 0:
+        case['late'] = []
     for lm in case['late']:
         # a plain callback of event 0 attaches the model, the stage's last callback then awaits a trigger on it
         slot = rng.choice([x for x in asyncctl.FLAT_TRANSITION_SLOTS if x != 'conditions'])
@@ -94,6 +108,10 @@ def gen_case(rng, big=False, force=None):
         next_tag[0] += 1
         case['script'].setdefault(key, []).append(['trig', lm, 'go', nt])
         gen_event_script(rng, case, nt, 1, next_tag, late_ok=True)
+    if any(op[0] == 'trig' for ops in case['script'].values() for op in ops):
+        # a callback handing back a Task/Future is still pending for a loop trip or two even when it does nothing; as a
+        # sibling of a trigger-awaiting callback it would let a cancelled event overtake its nested call (gather)
+        case['kinds']['1'] = 0
     return case
 
 
@@ -172,6 +190,8 @@ def note_stats(st, case, run):
     inc('machine', 'hsm' if case['hsm'] else 'flat')
     inc('attach', case.get('attach', 'ctor') + ('+late' if case.get('late') else ''))
     inc('top_level_triggers', str(len(case['triggers'])))
+    inc('callback_kinds', '%s/%s' % (case.get('kinds', {}).get('1', 0), case.get('kinds', {}).get('2', 0)))
+    inc('dispatch', 'with' if any(t[0] < 0 for t in case['triggers']) else 'without')
     inc('arrival', 'delayed' if any(case.get('delays', [])) else 'together')
     inc('quiescence_points', str(min(run.nquiet, 8)))
     inc('cancelled_tasks', str(min(sum(1 for it in run.log if it[0] == 'cancel'), 4)))
@@ -210,6 +230,34 @@ def all_schedules(case, limit):
     return
 
 
+def corpus_cases():
+    import glob
+    import os
+    out = []
+    if os.environ.get('C08_NO_CORPUS'):       # debugging knob: judge the generators alone
+        return out
+    for path in sorted(glob.glob(os.path.join(common.CORPUS, 'C08', '*.json'))):
+        with open(path) as fh:
+            out += json.load(fh).get('cases', [])
+    return out
+
+
+def corpus_chunk(cases):
+    """regression corpus: every case with ALL its release orders"""
+    ex = Exploration()
+    for case in cases:
+        for c, r, fs in all_schedules(case, 120):
+            ex.evaluations += 1
+            ex.traces_validated += 1
+            note_stats(ex.stats, c, r)
+            if nontrivial(c, r):
+                ex.nontrivial.add(fingerprint(c))
+            ex.failures += fs
+    d = ex.stats.setdefault('corpus', {})
+    d['cases'] = d.get('cases', 0) + len(cases)
+    return ex
+
+
 def chunk(seed, idx, n_cases, per_case, big=False):
     rng = random.Random('C08/%d/%d/%s' % (seed, idx, big))
     ex = Exploration()
@@ -245,7 +293,8 @@ def gen_sweep_program(rng):
     later triggers arrive"""
     case = {'hsm': rng.random() < 0.3, 'queued': rng.choice([1, 2]), 'on_exc': rng.random() < 0.2, 'ignore': False,
             'n_models': rng.choice([1, 2, 2]), 'protected': [], 'triggers': [], 'script': {}, 'schedule': [],
-            'attach': rng.choice(['ctor', 'list', 'each']), 'late': [], 'delays': []}
+            'attach': rng.choice(['ctor', 'list', 'each']), 'late': [], 'delays': [],
+            'kinds': {'1': rng.choice([0, 1, 2, 3]), '2': rng.choice([0, 1, 2, 3])}}
     n = rng.choice([2, 2, 3])
     evs = EVENTS_HSM if case['hsm'] else EVENTS_FLAT
     for tag in range(n):
@@ -335,6 +384,11 @@ def shrink_steps(case):
         c = copy.deepcopy(case)
         c['schedule'] = c['schedule'][:-1]
         yield c
+    for k in ('1', '2'):
+        if case.get('kinds', {}).get(k, 0):
+            c = copy.deepcopy(case)
+            c['kinds'][k] = 0
+            yield c
     if case.get('attach', 'ctor') != 'ctor' and not case.get('late'):
         c = copy.deepcopy(case)
         c['attach'] = 'ctor'
@@ -357,7 +411,8 @@ class C08(runner.Check):
     theorems = ('TM.C08_queue_order', 'TM.C08_queue_serial', 'TM.C08_model_queue', 'TM.C08_fail_clears_own_queue',
                 'TM.C08_cancel_targets', 'TM.C08_cancelled_behaviour', 'TM.C08_state_not_overwritten',
                 'TM.C08_cancelled_returns_false', 'TM.C08_cleanup', 'TM.C08_registered_state',
-                'TM.C08_cancelled_returns_false_counterexample', 'TM.C08_cancel_takes_effect_partial')
+                'TM.C08_cancelled_returns_false_counterexample', 'TM.C08_cancel_takes_effect_partial',
+                'TM.C08_sibling_end_isolated', 'TM.C08_fail_touches_own_event_only')
     manifest = dict(
         level='proof', design='DESIGN.md 4/C08 + design_notes/C08.md',
         text="Lean 4 theorems over the protocol-level transition system Model/AsyncSched.lean (tasks, async_tasks registry, "
@@ -389,7 +444,9 @@ class C08(runner.Check):
             'add_model from a callback during the run (then triggered from that callback); arrival at arbitrary loop iterations '
             '(top-level trigger k starts after delays[k] bare sleep(0) trips; an arrival-sweep stream tries every delay up to the '
             'length of the run on queued programs without suspension points); hierarchical machines with callbacks on nested '
-            'states and child->parent transitions; queued="model" programs always have '
+            'states and child->parent transitions; callback flavours (coroutine function / plain function handing back a Task, a bare '
+            'Future or an __await__ object); events started together through machine.dispatch (per-model root tasks gathered by the '
+            'library) next to individually awaited triggers; corpus/C08 first; queued="model" programs always have '
             '2-3 models and a higher share of raising events; for each program ALL release orders are enumerated (DFS over the pending futures at every '
             'quiescence; capped per program, the cap and the number of completely enumerated programs are in '
             'distribution.programs); a case = program + release order; non-trivial = a task was actually cancelled, or a '
@@ -418,18 +475,23 @@ class C08(runner.Check):
             'known finding hsm.concurrent_scope; the same between two non-cancelled transitions of ONE model is not judged; '
             'such traces are outside the protocol model (inclusion skipped, counted)',
             'the model treats the queue check and the drain as atomic steps, as the code does (no await between them)',
+            'dispatch is exercised from outside events only (a dispatch / several trigger-awaiting callbacks inside one callback '
+            'stage would run nested calls of ONE chain concurrently, which the chain-stack model does not describe)',
             'after one callback of a gather stage raised, sibling callbacks that are still suspended may outlive the '
             'event: their later completions are ignored (not covered by the statement)',
         ]
 
     def budget(self, tier):
         # (chunks, programs per chunk, release orders per program)
-        return (32, 28, 60) if tier == 'quick' else (64, 120, 200)
+        return (32, 18, 50) if tier == 'quick' else (64, 120, 200)
 
     def explore(self, tier, seed):
         nch, per, cap = self.budget(tier)
         payloads = [(seed, i, per, cap, (tier != 'quick' and i % 2 == 1)) for i in range(nch)]
         ex = Exploration()
+        cc = corpus_cases()
+        for part in runner.parallel(corpus_chunk, [(cc[i::8],) for i in range(8) if cc[i::8]]):
+            ex.merge(part)
         for part in runner.parallel(chunk, payloads):
             ex.merge(part)
         nsw, psw, dmax = (32, 3, 70) if tier == 'quick' else (64, 12, 90)
